@@ -7,6 +7,8 @@ Protocol (one self-contained request per line, a fresh simulation each time, the
     kind   i  int variable whose formula returns ord(period.start) mod 9973
            f  float variable whose 3-argument formula returns ord(period.start) mod 1009
            g  as i, defined on a group entity (requested through the group population)
+           b  bool variable whose formula returns ord(period.start) mod 3 == 0: its ADD is the NUMBER of pieces in
+              which it holds (an int, never a bool), its DIVIDE 1/n or 0
            c  int variable without formula, default value 7
            z  neutralised float variable (value 0)
            (the eternal variable of every kind is constant: 7 — a scalar returned by its formula —, or
@@ -14,6 +16,10 @@ Protocol (one self-contained request per line, a fresh simulation each time, the
     cfg    s  default configuration (values are stored)
            n  MemoryConfig(variables_to_drop=[variable]) : computed values are not stored
            t  simulation.trace = True
+           p  primed: before the request, the variable is calculated for the definition-unit-long period that
+              contains the requested period's first day (this_year / first_month / first_week / first_day /
+              first_weekday of the request), so that an ADD finds its first piece — and a DIVIDE the period
+              it divides — already cached
     parg   unit/Y,M,D/size      a Period object
            S:unit/Y,M,D/size    str(period): the entry point converts it with periods.period
            I:year/Y,1,1/1       the int Y
@@ -62,7 +68,7 @@ RANK = {"day": 0, "month": 1, "year": 2, "weekday": 0, "week": 1}
 # how long one unit lasts, in days (an independent table, not the code's unit weights)
 DURATION = {"weekday": 1, "day": 1, "week": 7, "month": 28, "year": 365}
 MOD = {"i": 9973, "f": 1009, "g": 9973}
-KINDS = ("i", "f", "g", "c", "z")
+KINDS = ("i", "f", "g", "c", "z", "b")
 ETERNITY_TOK = "eternity/-1,-1,-1/-1"
 IMPL_ERRORS = (ValueError, IndexError, TypeError, OverflowError)
 
@@ -100,7 +106,7 @@ def parse_line(line):
     if len(f) != 6 or f[0] != "add":
         return None
     _, kind, cfg, du, ps, mode = f
-    if kind not in KINDS or cfg not in ("s", "n", "t") or du not in UNITS:
+    if kind not in KINDS or cfg not in ("s", "n", "t", "p") or du not in UNITS:
         return None
     period, spelling = None, "P"
     if ps != "none":
@@ -194,6 +200,12 @@ def _system():
     def constant_formula(population, period):
         return 7                                           # a scalar: the engine fills the array
 
+    def bool_formula(population, period):
+        return population.filled_array(period.start.date.toordinal() % 3 == 0)
+
+    def true_formula(population, period):
+        return population.filled_array(True)
+
     outputs = {"": None, "_oa": simulations.calculate_output_add, "_od": simulations.calculate_output_divide}
     for u in UNITS:
         du = DateUnit(u)
@@ -203,6 +215,7 @@ def _system():
             "f": dict(value_type=float, formula=constant_formula if eternal else dated_formula3(MOD["f"])),
             "g": dict(value_type=int, formula=constant_formula if eternal else dated_formula(MOD["g"])),
             "c": dict(value_type=int, default_value=7),
+            "b": dict(value_type=bool, formula=true_formula if eternal else bool_formula),
             "z": dict(value_type=float, formula=constant_formula if eternal else dated_formula(MOD["f"])),
         }
         for kind, a in attrs.items():
@@ -240,7 +253,7 @@ def _fmt_frac(x: Fraction) -> str:
     return str(x.numerator) if x.denominator == 1 else f"{x.numerator}/{x.denominator}"
 
 
-def _canon_value(r, count) -> str:
+def _canon_value(r, count, bool_ok=False) -> str:
     import numpy
     if isinstance(r, numpy.ndarray):
         if r.shape != (count,):
@@ -249,7 +262,8 @@ def _canon_value(r, count) -> str:
             return "NONVALUE:entries-differ"
         r = r[0]
     if isinstance(r, (bool, numpy.bool_)):
-        return "NONVALUE:bool"
+        # the value of a bool variable for one period is a bool; a sum or a quotient never is
+        return str(int(r)) if bool_ok else "NONVALUE:bool"
     if not isinstance(r, (int, float, numpy.integer, numpy.floating)):
         return "NONVALUE:" + type(r).__name__      # e.g. None: a request must return a value or raise
     if isinstance(r, (int, numpy.integer)):
@@ -291,6 +305,14 @@ def impl(case: Case) -> str:
     population = sim.household if group else sim.persons
     caller = "caller_g" if group else "caller"
     p = _argument(c)
+    if c["cfg"] == "p" and c["period"] is not None and c["du"] != "eternity" and c["period"][0] != "eternity":
+        # one piece computed (and cached) beforehand; a period the variable cannot be computed for is just skipped
+        try:
+            first = {"year": lambda q: q.this_year, "month": lambda q: q.first_month, "week": lambda q: q.first_week,
+                     "day": lambda q: q.first_day, "weekday": lambda q: q.first_weekday}[c["du"]](_real_period(c["period"]))
+            sim.calculate(name, first)
+        except Exception:
+            pass
 
     def once():
         if req == "plain":
@@ -315,8 +337,10 @@ def impl(case: Case) -> str:
         sim.calculate(caller, "2000-01")
         return _CAPTURE[0]
 
+    bool_ok = c["kind"] == "b" and effective_mode(c) == "plain"
+
     def canon(r):
-        return "ok" if req == "chk" and r == "ok" else _canon_value(r, count)
+        return "ok" if req == "chk" and r == "ok" else _canon_value(r, count, bool_ok)
 
     try:
         first = canon(once())                  # canonicalised before the repeat: the array may be shared
@@ -351,7 +375,11 @@ def _round_quotient(kind, q: Fraction) -> Fraction:
     return Fraction(q.numerator / q.denominator)
 
 
-STRICT = bool(os.environ.get("OFV_C03_STRICT"))   # development: compare cross-family values too
+# Cross-family accepted cells (a day variable summed over a week, a week variable divided over a day, ...): the
+# statement claims no value for them (the oracle stays silent), but the model transcribes what the code does there
+# (get_subperiods / size_in_* of the C04 model), so the correspondence is binding for them as well.
+# OFV_C03_LENIENT=1 restores the round-1 behaviour (accept/reject binding, values only recorded).
+STRICT = not os.environ.get("OFV_C03_LENIENT")
 
 
 def _cross_family(c) -> bool:
@@ -370,7 +398,8 @@ def canon_equal(case: Case, impl_out: str, model_out: str) -> bool:
         return False
     if a == _round_quotient(c["kind"], b):
         return True
-    # Appendix A: whether a cross-family request is accepted is binding, its value is not
+    # the value of a cross-family accepted cell is binding too (the model transcribes the code there), unless
+    # OFV_C03_LENIENT is set
     return _cross_family(c) and not STRICT
 
 
@@ -389,6 +418,8 @@ def _valid(s):
 def _val(kind, du, start):
     if kind == "z":
         return 0
+    if kind == "b":
+        return 1 if du == "eternity" else int(O(start) % 3 == 0)
     if kind == "c" or du == "eternity":
         return 7
     return O(start) % MOD[kind]
@@ -644,9 +675,9 @@ def _matrix(dates, sizes, kinds_for, modes_for):
             for du in UNITS:
                 for kind in kinds_for(idx, n):
                     for mode in modes_for(du, u, n, kind):
-                        out.append(_mk(kind, "t" if idx % 5 == 4 else "s", du, ptok, mode))
+                        out.append(_mk(kind, "t" if idx % 5 == 4 else "p" if idx % 5 == 2 else "s", du, ptok, mode))
     for du in UNITS:
-        for kind in ("i", "f", "g"):
+        for kind in ("i", "f", "g", "b"):
             for mode in MAIN_MODES + ["pop:A", "pop:D", "pop:-"]:
                 # an eternal variable with a formula cannot be computed for the dateless ETERNITY period
                 # (Variable.get_formula formats the instant): recorded observation, not binding
@@ -712,7 +743,7 @@ def _side_streams(rng, dates, n_opts):
         form = rng.choice(OPTION_FORMS)
         via = rng.choice(["pop", "frm", "popt", "frmt"])
         spell = "S:" if (rng.random() < 0.25 and _own_aligned(u, s) and 1000 <= s[0] <= 9990) else ""
-        out.append(_mk(rng.choice(["i", "f", "g"]), rng.choice(["s", "s", "t"]), du, spell + _tok(u, s, n),
+        out.append(_mk(rng.choice(["i", "f", "g", "b"]), rng.choice(["s", "s", "t", "p"]), du, spell + _tok(u, s, n),
                        f"{via}:{form}", tags=("options",)))
     # a period argument that is not a period; sizes 0 and negative (answered, not binding);
     # impossible dates (the period algebra raises)
@@ -740,7 +771,7 @@ def _side_streams(rng, dates, n_opts):
 
 
 def _thorough_kinds(idx, n):
-    return ("i", "f", "g") if n in (1, 2, 3, 12, 24) else ("i", "f")
+    return ("i", "f", "g", "b") if n in (1, 3, 12) else ("i", "f", "g") if n in (2, 24) else ("i", "f")
 
 
 def _thorough_modes(du, u, n, kind):
@@ -766,7 +797,7 @@ def generate(rng: random.Random, tier: str):
         dates = list(DATES_QUICK)
         for _ in range(6):   # six further dates drawn per seed
             dates.append((rng.choice([1996, 2003, 2011, 2020, 2024, 2031, 2096, 2104]), rng.randint(1, 12), rng.randint(1, 28)))
-        out = _matrix(dates, (1, 2, 3, 12), lambda idx, n: (("i", "f", "g")[(idx + n) % 3],),
+        out = _matrix(dates, (1, 2, 3, 12), lambda idx, n: (("i", "f", "g", "b", "i", "f", "g")[(idx + n) % 7],),
                       lambda du, u, n, kind: MAIN_MODES)
         out += _text_stream(dates, (1, 2, 3, 12), ("i", "f", "g"))
         out += _side_streams(rng, dates, 600)
@@ -808,6 +839,12 @@ def corpus():
         _mk("i", "s", "weekday", "week/2020,12,28/2", "add", tags=("corpus",)),
         _mk("f", "s", "week", "weekday/2021,1,3/1", "div", tags=("corpus",)),
         _mk("i", "s", "month", "year/2019,3,1/2", "add", tags=("corpus",)),
+        # a bool variable: ADD counts the pieces in which it holds
+        _mk("b", "s", "weekday", "week/2020,12,28/2", "add", tags=("corpus",)),
+        _mk("b", "s", "month", "year/2020,1,1/1", "frm:A", tags=("corpus",)),
+        _mk("b", "p", "day", "month/2020,2,1/1", "out:A", tags=("corpus",)),
+        _mk("b", "s", "year", "month/2019,12,1/1", "div", tags=("corpus",)),
+        _mk("b", "s", "month", "month/2019,12,1/1", "plain", tags=("corpus",)),
         # text / int arguments, ISO-year boundaries, calculate_output, group entity, trace
         _mk("i", "s", "month", "S:year/2020,1,1/1", "add", tags=("corpus", "text")),
         _mk("f", "s", "year", "I:year/2020,1,1/1", "div", tags=("corpus", "int")),
@@ -864,7 +901,8 @@ PROP = Prop(
           "calculate_output on variables declaring none / calculate_output_add / calculate_output_divide, and from inside a "
           "formula: no option, ADD, DIVIDE, both, unknown}; the period passed as a Period object, and — for every aligned start — "
           "as str(period) (week / weekday texts go through the ISO calendar) and as an int; int (mod 9973), float (mod 1009, "
-          "3-argument formula) and group-entity variables, trace on one start in five, 1-3 persons; plus constant / neutralised "
+          "3-argument formula), group-entity and bool (true on every third day: its ADD is a count, never a bool) variables, trace on one start in five, on another one in five the first piece of the "
+          "request (this_year / first_month / first_week / first_day / first_weekday of the requested period) calculated beforehand so that the request finds it cached, 1-3 persons; plus constant / neutralised "
           "variables, the not-stored configuration, 23 spellings of the options in lists and tuples on random cells, "
           "check_period_validity, non-period arguments, sizes <= 0, impossible dates, malformed lines. A fresh simulation per "
           "line, every request made twice on it. Non-trivial = a decision of the accept/reject matrix or an accepted ADD / "
@@ -876,9 +914,11 @@ PROP = Prop(
         "pendulum / datetime arithmetic modelled in Calendar.lean",
         "a DIVIDE result is one correctly rounded IEEE division of two exactly represented integers, reproduced by the harness "
         "from the model's exact quotient (float32 for float variables, float64 for int variables); rounding itself is modelled, not verified",
-        "claim domain: accept/reject on the whole matrix, values for same-family pairs; values of cross-family accepted cells, "
-        "sizes <= 0, impossible dates, years < 2 or > 9990 and an eternal formula variable requested for the ETERNITY period "
-        "are compared with the model but not binding",
+        "claim domain of the ORACLE: accept/reject on the whole matrix, values for same-family pairs. The values of cross-family "
+        "accepted cells (a day variable summed over a week, a week variable divided over a day ...) are not claimed by the statement, but the "
+        "model transcribes what the code does there, so their correspondence is binding (theorem C03_add_days_any_unit says what they are "
+        "for per-day variables); sizes <= 0, impossible dates, years < 2 or > 9990 and an eternal formula variable requested for the ETERNITY "
+        "period are compared with the model but not binding",
         "errors are compared as one class (any exception of ValueError / IndexError / TypeError / OverflowError)",
         "periods.period(str | int) is the C05 model parsePeriod (tied by C05's correspondence); text arguments are generated "
         "for periods aligned to their own unit with years 1000..9990 (C05's claim domain)",
